@@ -51,6 +51,7 @@ class State:
     empties_after_all_dead = 0
     stale = 0
     created = 0  # Process objects created so far (= number of the next worker)
+    group_procs = {}  # queue (batch group) number -> Process objects created for it
 
 
 def item_id(obj):
@@ -112,9 +113,21 @@ def install(plan):
             except pyqueue.Empty:
                 log("get_empty", group=g)
                 State.last_empty = True
+                procs = State.group_procs.get(g, [])
                 if forced_for(g) and g not in State.window_done:
+                    # "timed out, about to look at the workers": the held workers finish exactly now, i.e.
+                    # between the time-out and whatever liveness check gaftools performs next
                     State.window_armed.add(g)
-                    events[g].set()  # "timed out, about to check liveness": workers may finish now
+                    events[g].set()
+                    for p in procs:
+                        if p.pid is not None:
+                            p.join(timeout=15)
+                    State.window_done.add(g)
+                    log("window_forced", group=g, all_dead=not any(p.is_alive() for p in procs))
+                if procs and all(p.pid is not None and p.exitcode == 0 for p in procs):
+                    # every worker of the group has exited cleanly at a time-out: results may still be queued
+                    log("window_reached", group=g)
+                State.processes = procs or State.processes
                 if State.processes is not None and not any(p.is_alive() for p in State.processes):
                     State.empties_after_all_dead += 1
                     if State.empties_after_all_dead > 25:
@@ -131,11 +144,19 @@ def install(plan):
         ones, every other name (current_process, cpu_count, ...) is multiprocessing's own"""
         @staticmethod
         def Process(*a, **k):
+            # whatever function gaftools runs in a worker, and however it is called: the worker is
+            # entered through worker_entry, which numbers it by creation order and hands it a
+            # traced proxy in place of the result queue
             idx = State.created
             State.created += 1
-            if k.get("target") is wfa_wrapper:
-                k["target"] = functools.partial(wfa_wrapper, _widx=idx)
-            return ctxmp.Process(*a, **k)
+            tgt, args = k.get("target"), tuple(k.get("args", ()))
+            if tgt is not None and any(isinstance(x, VQueue) for x in args):
+                if tgt is wfa_wrapper:
+                    tgt = orig_wfa
+                k["target"], k["args"] = worker_entry, (idx, tgt, args)
+            proc = ctxmp.Process(*a, **k)
+            State.group_procs.setdefault(State.queues - 1, []).append(proc)
+            return proc
 
         @staticmethod
         def Queue(*a, **k):
@@ -147,7 +168,24 @@ def install(plan):
     MPShim = _MPShim()
 
     # ---- worker side -----------------------------------------------------------------------------
-    orig_wfa = R.wfa_alignment
+    orig_wfa = getattr(R, "wfa_alignment", None)
+
+    def worker_entry(w, target, args):
+        global ROLE
+        ROLE = "worker"
+        qu = next(x for x in args if isinstance(x, VQueue))
+        sized = [x for x in args if isinstance(x, (list, tuple))]
+        n = len(sized[0]) if sized else 0
+        log("worker_start", w=w, first=None, n=n)
+        proxy = QProxy(qu, w, n)
+        target(*[proxy if x is qu else x for x in args])
+        for fault in faults:
+            if fault["worker"] == w and fault["point"] == "after_sentinel":
+                die(fault["kind"], qu)
+        d = wdelay.get(f"{w}:before_exit") or wdelay.get("*:before_exit")
+        if d:
+            time.sleep(d)
+        log("worker_done", w=w)
 
     def die(kind, qu):
         log("fault_fire", kind=kind)
@@ -202,6 +240,7 @@ def install(plan):
         first = seq_batch[0][3] if len(seq_batch[0]) > 3 and isinstance(seq_batch[0][3], int) else None
         w = _widx if _widx is not None else (first // batch if first is not None else 0)
         log("worker_start", w=w, first=first, n=len(seq_batch))
+        # (only reached when gaftools calls its worker function directly, in the parent process)
         proxy = QProxy(qu, w, len(seq_batch))
         orig_wfa(seq_batch, proxy)
         for fault in faults:
@@ -221,13 +260,6 @@ def install(plan):
     def one_is_alive_w(processes):
         State.processes = processes
         nalive[0] += 1
-        g = State.queues - 1
-        if g in State.window_armed and g not in State.window_done:
-            # the workers of this group finish between the time-out and the liveness check
-            for p in processes:
-                p.join(timeout=15)
-            State.window_done.add(g)
-            log("window_forced", group=g, all_dead=not any(p.is_alive() for p in processes))
         d = pdelay.get(f"before_alive:{nalive[0]}") or pdelay.get("before_every_alive")
         if d:
             time.sleep(d)
@@ -239,11 +271,12 @@ def install(plan):
     def all_exited_w(processes):
         r = orig_exited(processes)
         log("all_exited", r=r, codes=[p.exitcode for p in processes])
-        if r and State.last_empty and State.last_alive is False:
-            log("window_reached", group=State.queues - 1)
         return r
 
-    R.wfa_alignment = wfa_wrapper
+    if orig_wfa is not None:
+        R.wfa_alignment = wfa_wrapper
+    else:
+        log("hook_missing", name="wfa_alignment")
     R.mp = MPShim
     if orig_alive is not None:
         R.one_is_alive = one_is_alive_w
